@@ -111,13 +111,13 @@ def run(run, tier):
     mc = tlc.run("BestBasis.tla", "BestBasis_mcq.cfg" if tier == "quick" else "BestBasis_mc.cfg", timeout=1800)
     if mc.violated:
         raise MachineryError("BestBasis.tla design model violates %s" % mc.violated)
-    run.add_model(mc, "BestBasis_mc: every list of <= 3 distinct spans of a 17-vector universe (cubic frame), equal metrics "
+    run.add_model(mc, "BestBasis_mc: every list of <= 3 distinct spans of a 21-vector universe (cubic frame), equal metrics "
                       "(Total, Independent, PrimitiveWhenAvailable%s)" % ("" if tier == "quick" else ", OrderIndependent"))
     if tier != "quick":
         mh = tlc.run("BestBasis.tla", "BestBasis_mchex.cfg", timeout=1800)
         if mh.violated:
             raise MachineryError("BestBasis.tla (hexagonal frame) violates %s" % mh.violated)
-        run.add_model(mh, "BestBasis_mchex: every list of <= 3 distinct spans of the 13 small vectors in a hexagonal frame")
+        run.add_model(mh, "BestBasis_mchex: every list of <= 3 distinct spans of the 17 small vectors in a hexagonal frame")
         mm = tlc.run("BestBasis.tla", "BestBasis_met.cfg", timeout=1800)
         if mm.violated:
             raise MachineryError("BestBasis.tla (metrics 1..2) violates %s" % mm.violated)
